@@ -179,6 +179,69 @@ pub fn datum_obs(d: &Datum) -> String {
     s + &t
 }
 
+/// The transcript of a full walk of a datum with Ref::list_iter (peek,
+/// is_empty, next), vector_iter and as_pair; the model's walk_ref prints the same.
+pub fn refwalk_obs(r: lexpr::datum::Ref<'_>, out: &mut String) {
+    out.push_str(&format!("{{{}", span_str(r.span())));
+    out.push_str(" L:");
+    match r.list_iter() {
+        None => out.push('-'),
+        Some(mut it) => {
+            out.push('[');
+            loop {
+                let pk = it.peek().is_some();
+                let emp = it.is_empty();
+                out.push(if pk { 'p' } else { '-' });
+                out.push(if emp { 'e' } else { 'n' });
+                match it.next() {
+                    Some(x) => refwalk_obs(x, out),
+                    None => {
+                        out.push('_');
+                        if it.is_empty() {
+                            break;
+                        }
+                    }
+                }
+            }
+            out.push(']');
+        }
+    }
+    out.push_str(" V:");
+    match r.vector_iter() {
+        None => out.push('-'),
+        Some(it) => {
+            out.push('[');
+            for e in it {
+                refwalk_obs(e, out);
+            }
+            out.push(']');
+        }
+    }
+    out.push_str(" P:");
+    match r.as_pair() {
+        None => out.push('-'),
+        Some((a, d)) => out.push_str(&format!("({},{})", span_str(a.span()), span_str(d.span()))),
+    }
+    out.push('}');
+}
+
+pub fn refwalk_res(r: &Result<Datum, Error>) -> String {
+    match r {
+        Ok(d) => {
+            let res = catch_unwind(AssertUnwindSafe(|| {
+                let mut s = String::new();
+                refwalk_obs(d.as_ref(), &mut s);
+                s
+            }));
+            match res {
+                Ok(s) => format!("ok {}", s),
+                Err(_) => "PANIC".to_string(),
+            }
+        }
+        Err(e) => err_obs(e),
+    }
+}
+
 pub fn dres_obs(r: &Result<Datum, Error>) -> String {
     match r {
         Ok(d) => format!("ok {}", datum_obs(d)),
